@@ -220,3 +220,23 @@ impl Filter {
         }
     }
 }
+
+#[cfg(discv5_verif)]
+impl Filter {
+    /// Verification hook: the rate limiter (to pass virtual time and to read its state).
+    pub(crate) fn verif_rate_limiter(&mut self) -> Option<&mut RateLimiter> {
+        self.rate_limiter.as_mut()
+    }
+
+    /// Verification hook: the node ids seen per IP and the number of banned nodes per IP.
+    #[allow(clippy::type_complexity)]
+    pub(crate) fn verif_tracking(&self) -> (Vec<(IpAddr, Vec<NodeId>)>, Vec<(IpAddr, usize)>) {
+        (
+            self.known_addrs
+                .iter()
+                .map(|(ip, ids)| (*ip, ids.iter().copied().collect()))
+                .collect(),
+            self.banned_nodes.iter().map(|(ip, n)| (*ip, *n)).collect(),
+        )
+    }
+}
